@@ -23,6 +23,7 @@ CONSTANTS Others, Stake, Digests, NMakes,
           Weak     \* attack models: "exclude_self" (own stake not counted), "keep_buffer" (payload not drained), "no_wait"
 
 Me == 0
+D400 == 1..400        \* a large digest universe for backlog schedules (configuration files cannot write a range)
 RECURSIVE Sum(_)
 Sum(S) == IF S = {} THEN 0 ELSE LET x == CHOOSE y \in S : TRUE IN Stake[x] + Sum(S \ {x})
 Quorum == (2 * Sum(Others \cup {Me})) \div 3 + 1
